@@ -274,23 +274,41 @@ func behaviouralTypes(quick bool) (fine, lean, res []*ty, bound string) {
 	sib := leavesOf("i8", "i64", "str")
 	if quick {
 		// depth 1: structs of 1-2 fields over all six leaves, of 3 fields over {i8,i64,str} and
-		// over the permutations-with-repetition of {i16,i32,i64} (mixed widths), arrays and
-		// optionals over all six
+		// the six orders of (i8,i32,i64) (mixed widths), arrays and optionals over all six
 		d1 := structsOver(all6, 2)
 		d1 = append(d1, structsK(sib, 3)...)
-		d1 = append(d1, structsK(leavesOf("i16", "i32", "i64"), 3)...)
+		w3 := leavesOf("i8", "i32", "i64")
+		for _, p := range [][3]int{{0, 1, 2}, {0, 2, 1}, {1, 0, 2}, {1, 2, 0}, {2, 0, 1}, {2, 1, 0}} {
+			d1 = append(d1, tStruct(w3[p[0]], w3[p[1]], w3[p[2]]))
+		}
 		for _, l := range all6 {
 			d1 = append(d1, tArr(2, l), tArr(3, l))
 		}
 		for _, l := range all6 {
 			d1 = append(d1, tOpt(l))
 		}
-		d1n := depth1(leavesOf("i8", "i64"), 2)
-		d2 := wrap(d1n, sib, 2)
-		fine = depth1(leavesOf("i8", "i64"), 2)
+		// depth 2: children = structs of 1-2 fields, [2]T and T? over {i8,i64}; constructors
+		// [2]C, C?, {C}, {C,i8}, {i8,C}
+		two := leavesOf("i8", "i64")
+		ch := structsOver(two, 2)
+		for _, l := range two {
+			ch = append(ch, tArr(2, l))
+		}
+		for _, l := range two {
+			ch = append(ch, tOpt(l))
+		}
+		var d2 []*ty
+		for _, c := range ch {
+			d2 = append(d2, tArr(2, c))
+			if c.k != kOpt {
+				d2 = append(d2, tOpt(c))
+			}
+		}
+		d2 = append(d2, oneComposite(ch, leavesOf("i8"), 2)...)
+		fine = append(structsOver(two, 2), tArr(2, two[0]), tOpt(two[1]))
 		lean = append(append(lean, d1...), d2...)
-		res = append(results(nil, all6), results(d1n, leavesOf("i8", "i64"))...)
-		bound = fmt.Sprintf("behavioural: depth1 = structs of 1-2 fields over {i8,i16,i32,i64,bool,str}, of 3 fields over {i8,i64,str} and over {i16,i32,i64}, [2]T/[3]T/T? over all six: %d types; depth2 = one composite child from the depth1 over {i8,i64} with structs<=2 fields (%d), siblings {i8,i64,str}, structs<=2 fields: %d types; fine-grained case set on the depth1 over {i8,i64} (%d types); results: leaf x leaf over six leaves, and one composite side from the %d children with the other side in {i8,i64}: %d", len(d1), len(d1n), len(d2), len(fine), len(d1n), len(res))
+		res = append(results(nil, all6), results(ch, leavesOf("i64"))...)
+		bound = fmt.Sprintf("behavioural (quick): depth1 = structs of 1-2 fields over {i8,i16,i32,i64,bool,str}, of 3 fields over {i8,i64,str} and the six orders of (i8,i32,i64), [2]T/[3]T/T? over all six: %d types; depth2 = [2]C, C?, {C}, {C,i8}, {i8,C} for C in the structs of 1-2 fields, [2]T, T? over {i8,i64} (%d children): %d types; fine-grained case set on %d depth1 types; results: leaf x leaf over six leaves, and C ! i64, i64 ! C: %d", len(d1), len(ch), len(d2), len(fine), len(res))
 		return
 	}
 	all7 := leavesOf("i8", "i16", "i32", "i64", "i128", "bool", "str")
@@ -333,7 +351,7 @@ func oneCompositeK(comps, leaves []*ty, k int) []*ty {
 func Run(c *vl.Ctx) {
 	quick := c.Quick()
 	if quick {
-		c.SetBudget(100 * time.Second)
+		c.SetBudget(105 * time.Second)
 	} else {
 		c.SetBudget(17 * time.Minute)
 	}
@@ -442,7 +460,7 @@ func Run(c *vl.Ctx) {
 			wg.Add(1)
 			go func() {
 				defer wg.Done()
-				tr := runTarget(c, r, cases, 130, 6)
+				tr := runTarget(c, r, cases, 250, 6)
 				dbg(fmt.Sprintf("%s done: judged %d rejected %d timeouts %d programs %d", r.target, tr.judged, tr.rejected, tr.timeouts, tr.programs))
 				rmu.Lock()
 				defer rmu.Unlock()
@@ -469,7 +487,7 @@ func Run(c *vl.Ctx) {
 		for _, k := range fk {
 			v := families[k]
 			fams[k] = fmt.Sprintf("accepted=%d rejected=%d", v[0], v[1])
-			if v[0] == 0 && v[1] > 0 {
+			if v[0] == 0 && v[1] > 0 && !c.Capped {
 				c.Fail(vl.Fail{Case: "C18/vacuity/" + k, Obs: "no program of this family is accepted by this target: the property is not exercised for it",
 					Files: map[string]string{"note.txt": fmt.Sprintf("%s: accepted=0 rejected=%d\n", k, v[1])}})
 			}
